@@ -194,14 +194,12 @@ Example C38_clean_examples :
 Proof. repeat split; vm_compute; reflexivity. Qed.
 
 (* ---- values: int() ------------------------------------------------------------------- *)
-(* Only the integer reading is stated here: every statement about try_number / valof /
-   time_of mentions the PrimFloat-typed value model, for which Print Assumptions lists
-   Coq's primitive float / int63 constants instead of "Closed under the global context".
-   Those theorems (valof_spec, valof_first_key, valof_no_key, try_number_render_Z,
-   try_number_string_printable, try_number_foreign_char_printable, time_of_spec,
-   time_of_int_inj, cold_case_times, cold_case_diagram, hot_case_times,
-   cold_case_times_sorted) are proved in Ops/MarbleNumbersFacts.v, which prints their
-   assumptions (kernel primitives only, no axiom). *)
+(* The integer reading first: these statements mention Z only and are closed under the
+   global context.  Every statement about try_number / valof / time_of mentions the
+   PrimFloat-typed value model, for which Print Assumptions lists Coq's primitive
+   float / int63 constants instead of "Closed under the global context"; those theorems
+   are restated in the last section of this file ("number parsing, lookup and
+   timestamps"). *)
 
 (* int(str(z)) = z for EVERY integer; render_Z is the standard library's decimal
    printing (optional "-", digits, no leading zero) *)
@@ -231,4 +229,149 @@ Example C38_int_examples :
   /\ parse_int (l "0042") = Some 42%Z /\ parse_int (l "1_000") = Some 1000%Z
   /\ parse_int (l "1__0") = None /\ parse_int (l "x1") = None
   /\ forallb numeric_char (l "1x") = false.
+Proof. repeat split; vm_compute; reflexivity. Qed.
+
+(* ==== number parsing, lookup and timestamps ============================================
+   (statements mention PrimFloat: Print Assumptions lists the kernel's primitive
+   float/int63 operations, no axiom)
+   The value model [pyval] has a float constructor and [pytime] a float timestamp, both
+   of Coq's primitive type PrimFloat.float; every statement about try_number / valof /
+   time_of / cold_case / hot_case therefore mentions that type, and Print Assumptions
+   prints the kernel primitives it is built from (PrimFloat.float, PrimFloat.mul,
+   PrimFloat.of_uint63, PrimInt63.int, ...) instead of "Closed under the global
+   context".  They are primitives of the kernel, declared by Coq's own library with
+   [Primitive], not axioms of this development; none of the proofs below reasons about
+   floating-point arithmetic (no FloatAxioms lemma is used). *)
+
+(* the decimal rendering of EVERY integer is read as that int *)
+Theorem C38_try_number_render_Z : forall z : Z, try_number (render_Z z) = PInt z.
+Proof. exact try_number_render_Z. Qed.
+Print Assumptions C38_try_number_render_Z.
+
+(* lookup_.get(v, v) with v = try_number(element): the entry of the first key equal to v
+   (Python == between str / int / float keys), else v itself *)
+Theorem C38_valof_spec : forall (lk : list (pyval * pyval)) (s : str),
+  valof lk s = match find (fun kv => py_eq (try_number s) (fst kv)) lk with
+               | Some kv => snd kv
+               | None => try_number s
+               end.
+Proof. exact valof_spec. Qed.
+Print Assumptions C38_valof_spec.
+
+Theorem C38_valof_first_key : forall (lk1 : list (pyval * pyval)) (k v : pyval) (lk2 : list (pyval * pyval)) (s : str),
+  (forall kv, In kv lk1 -> py_eq (try_number s) (fst kv) = false) ->
+  py_eq (try_number s) k = true -> valof (lk1 ++ (k, v) :: lk2) s = v.
+Proof. exact valof_first_key. Qed.
+Print Assumptions C38_valof_first_key.
+
+Theorem C38_valof_no_key : forall (lk : list (pyval * pyval)) (s : str),
+  (forall kv, In kv lk -> py_eq (try_number s) (fst kv) = false) -> valof lk s = try_number s.
+Proof. exact valof_no_key. Qed.
+Print Assumptions C38_valof_no_key.
+
+(* printable ASCII (codes 33..126: the model's domain, no whitespace), not [sign]
+   inf / infinity / nan, first character after an optional sign neither a digit nor "." :
+   the element stays a string *)
+Theorem C38_try_number_string_printable : forall s : str, forallb printable s = true ->
+  special_float (map lower (body s)) = false -> non_numeric_head (body s) -> try_number s = PStr s.
+Proof. exact try_number_string_printable. Qed.
+Print Assumptions C38_try_number_string_printable.
+
+(* ... or containing a character outside 0-9 _ . e E + - *)
+Theorem C38_try_number_foreign_char_printable : forall s : str, forallb printable s = true ->
+  forallb numeric_char s = false -> special_float (map lower (body s)) = false -> try_number s = PStr s.
+Proof. exact try_number_foreign_char_printable. Qed.
+Print Assumptions C38_try_number_foreign_char_printable.
+
+(* exactly: an element stays a string iff neither int() nor float() reads it *)
+Theorem C38_try_number_is_string_iff : forall s : str,
+  try_number s = PStr s <-> (parse_int s = None /\ parse_float s = None).
+Proof. exact try_number_is_string_iff. Qed.
+Print Assumptions C38_try_number_is_string_iff.
+
+(* timestamp of frame k = k * timespan + time_shift in Python's arithmetic: int*int+int is
+   an exact integer; with a float operand the int is converted (zf = float(int)) and the
+   operations are the binary64 ones *)
+Theorem C38_time_of_spec : forall (ts sh : pytime) (k : nat),
+  time_of ts sh k =
+  match ts, sh with
+  | TI t, TI b => TI (Z.of_nat k * t + b)
+  | TI t, TF b => TF (zf (Z.of_nat k * t) + b)%float
+  | TF t, TI b => TF (zf (Z.of_nat k) * t + zf b)%float
+  | TF t, TF b => TF (zf (Z.of_nat k) * t + b)%float
+  end.
+Proof. exact time_of_spec. Qed.
+Print Assumptions C38_time_of_spec.
+
+Theorem C38_time_of_int : forall (t b : Z) (k : nat), time_of (TI t) (TI b) k = TI (Z.of_nat k * t + b).
+Proof. exact time_of_int. Qed.
+Print Assumptions C38_time_of_int.
+
+(* integer timespan >= 0: later frames are not earlier (a statement about Z only) *)
+Theorem C38_time_of_int_mono : forall (t b : Z) (k1 k2 : nat), (0 <= t)%Z -> k1 <= k2 ->
+  (Z.of_nat k1 * t + b <= Z.of_nat k2 * t + b)%Z.
+Proof. exact time_of_int_mono. Qed.
+Print Assumptions C38_time_of_int_mono.
+
+(* integer timespan <> 0: distinct frames get distinct timestamps *)
+Theorem C38_time_of_int_inj : forall (t b : Z) (k1 k2 : nat), t <> 0%Z ->
+  time_of (TI t) (TI b) k1 = time_of (TI t) (TI b) k2 -> k1 = k2.
+Proof. exact time_of_int_inj. Qed.
+Print Assumptions C38_time_of_int_inj.
+
+(* cold (from_marbles): every parsed message (frame k, n) is delivered, in order, at
+   time_of k;  stamp ts sh (k, n) = (time_of ts sh k, n) *)
+Theorem C38_cold_case_times : forall (c : pcase) (ms : list (nat * notif pyval)),
+  parse_model pyval (valof (c_lookup c)) true (s2l (c_str c)) = inr ms ->
+  cold_case c = inr (map (stamp (c_ts c) (c_shift c)) ms).
+Proof. exact cold_case_times. Qed.
+Print Assumptions C38_cold_case_times.
+
+(* on a well-formed diagram: each item's notifications at
+   (index of its first character) * timespan + shift *)
+Theorem C38_cold_case_diagram : forall (c : pcase) (d : list item),
+  wf d = true -> remove_spaces (s2l (c_str c)) = render d -> stop_ok (elements d) = true ->
+  cold_case c = inr (map (stamp (c_ts c) (c_shift c)) (denote pyval (valof (c_lookup c)) d)).
+Proof. exact cold_case_diagram. Qed.
+Print Assumptions C38_cold_case_diagram.
+
+(* cold = timed parse when raise_stopped is set (from_marbles always sets it) *)
+Theorem C38_cold_case_is_parse_case : forall c : pcase, c_rs c = true -> cold_case c = parse_case c.
+Proof. exact cold_case_is_parse_case. Qed.
+Print Assumptions C38_cold_case_is_parse_case.
+
+(* hot, observer subscribed at the creation instant: the parsed messages of frame > 0 *)
+Theorem C38_hot_case_times : forall (c : pcase) (ms : list (nat * notif pyval)),
+  parse_model pyval (valof (c_lookup c)) true (s2l (c_str c)) = inr ms ->
+  hot_case c = inr (map (stamp (c_ts c) (c_shift c)) (filter (fun m => Nat.ltb 0 (fst m)) ms)).
+Proof. exact hot_case_times. Qed.
+Print Assumptions C38_hot_case_times.
+
+(* integer timespan >= 0 and integer shift: the delivered times are integers, start at the
+   shift or later and never decrease *)
+Theorem C38_cold_case_times_sorted : forall (c : pcase) (t b : Z) (ms : list (nat * notif pyval)),
+  c_ts c = TI t -> c_shift c = TI b -> (0 <= t)%Z ->
+  parse_model pyval (valof (c_lookup c)) true (s2l (c_str c)) = inr ms ->
+  exists out, cold_case c = inr out /\ times_sorted b out.
+Proof. exact cold_case_times_sorted. Qed.
+Print Assumptions C38_cold_case_times_sorted.
+
+(* the hypotheses are satisfiable: elements that stay strings / are read as numbers, a
+   lookup hit and miss, and a timed cold run of a well-formed diagram *)
+Example C38_value_examples :
+  (forallb printable (l "x1") = true /\ special_float (map lower (body (l "x1"))) = false
+   /\ non_numeric_head (body (l "x1")) /\ try_number (l "x1") = PStr (l "x1"))
+  /\ (forallb printable (l "1x") = true /\ forallb numeric_char (l "1x") = false
+      /\ special_float (map lower (body (l "1x"))) = false /\ try_number (l "1x") = PStr (l "1x"))
+  /\ try_number (l "0042") = PInt 42
+  /\ valof [(PStr (l "a"), PObj 7); (PInt 3, PObj 8)] (l "3") = PObj 8
+  /\ valof [(PStr (l "a"), PObj 7); (PInt 3, PObj 8)] (l "b") = PStr (l "b").
+Proof. repeat split; vm_compute; reflexivity. Qed.
+
+Example C38_time_examples :
+  cold_case (mkpcase true (TI 3) (TI 2) [] "-a(b,4)-|")
+  = inr [(TI 5, NNext (PStr (l "a"))); (TI 8, NNext (PStr (l "b"))); (TI 8, NNext (PInt 4)); (TI 26, NCompleted)]
+  /\ wf [ITicks 1; IElem (l "a"); IGroup [l "b"; l "4"]; ITicks 1; IEnd] = true
+  /\ render [ITicks 1; IElem (l "a"); IGroup [l "b"; l "4"]; ITicks 1; IEnd] = l "-a(b,4)-|"
+  /\ stop_ok (elements [ITicks 1; IElem (l "a"); IGroup [l "b"; l "4"]; ITicks 1; IEnd]) = true.
 Proof. repeat split; vm_compute; reflexivity. Qed.
